@@ -282,8 +282,18 @@ def runtime_subjects():
             tree, _ = load.runtime_ast(ctx)
             out.append((f'translator.py:_main_template[ctx={int(ctx)}]', tree, 'sourcer/translator.py'))
     out.append(('sourcer/parser.py (generated)', load.parse('sourcer/parser.py'), 'sourcer/parser.py'))
-    _cache['rt_subjects'] = out
-    return out
+    _cache['rt_subjects'] = _Subjects(out)
+    return _cache['rt_subjects']
+
+
+class _Subjects(list):
+    """iterating the runtime subjects announces each module to the path engine (helper inlining)"""
+
+    def __iter__(self):
+        for item in list.__iter__(self):
+            P.set_module(item[1])
+            yield item
+        P.set_module(None)
 
 
 # --------------------------------------------------------------------------- helpers
@@ -954,25 +964,61 @@ def route_ignored_sets(R, bad, stats):
 
 
 def who_may_call_ignored(bad, stats):
-    """`utils.skip_ignored` is referenced only from the literal classes' _compile; the name of the
-    ignore rule is built only in skip_ignored, the start-rule prefixing and the context wiring."""
-    lit_files = {'sourcer/expressions/str.py', 'sourcer/expressions/regex.py', 'sourcer/expressions/byte.py'}
+    """`utils.skip_ignored` is reachable (call graph over the generator sources, callees resolved by
+    name) only from the `_compile` of the literal classes - directly or through helper functions
+    that only they call; the name of the ignore rule is built only in skip_ignored and (anywhere
+    inside) generate_source_code."""
+    lit_files = {'sourcer/expressions/str.py': 'Str', 'sourcer/expressions/regex.py': 'Regex',
+                 'sourcer/expressions/byte.py': 'Byte'}
+    funcs = {}          # short name -> list of (rel, qualname, node)
+    for rel in load.expression_files() + ['sourcer/translator.py', 'sourcer/grammar.py']:
+        tree = load.parse(rel)
+        for fname, fn in load.functions_of(tree).items():
+            funcs.setdefault(fname.split('.')[-1], []).append((rel, fname, fn))
+    def callers_of(short):
+        out = []
+        for lst in funcs.values():
+            for rel, fname, fn in lst:
+                for n in ast.walk(fn):
+                    if isinstance(n, ast.Call) and ast.unparse(n.func).split('.')[-1] == short \
+                            and fname.split('.')[-1] != short:
+                        out.append((rel, fname))
+                        break
+        return out
+    # roots that can reach skip_ignored
+    seen, work, roots = set(), ['skip_ignored'], set()
+    while work:
+        s = work.pop()
+        if s in seen:
+            continue
+        seen.add(s)
+        for rel, fname in callers_of(s):
+            short = fname.split('.')[-1]
+            is_method_root = '.' in fname and not fname.split('.')[-2].startswith('<') and short in (
+                '_compile', 'compile', 'argumentize', 'precompile', 'functionalize')
+            if is_method_root or rel != 'sourcer/expressions/utils.py' and '.' not in fname and not callers_of(short):
+                roots.add((rel, fname))
+            else:
+                work.append(short)
+    stats['skip_calls'] += len(roots)
+    lit_roots = 0
+    for rel, fname in sorted(roots):
+        if rel in lit_files and fname == f'{lit_files[rel]}._compile':
+            lit_roots += 1
+        else:
+            bad('IGN-who-may-call', f'{rel}:{fname} can reach skip_ignored: ignored text may only be skipped by '
+                                    f'the literal matchers (and before the start rule)')
     for rel in load.expression_files() + ['sourcer/translator.py', 'sourcer/grammar.py']:
         tree = load.parse(rel)
         for fname, fn in load.functions_of(tree).items():
             for n in ast.walk(fn):
                 if isinstance(n, ast.Call):
                     f = ast.unparse(n.func)
-                    if f.endswith('skip_ignored') and 'def' not in f:
-                        stats['skip_calls'] += 1
-                        if rel not in lit_files or not fname.endswith('._compile'):
-                            bad('IGN-who-may-call', f'{rel}:{fname} calls skip_ignored: ignored text may only be '
-                                                    f'skipped by the literal matchers (and before the start rule)')
                     if f.endswith('implementation_name') and n.args and isinstance(n.args[0], ast.Constant) \
                             and n.args[0].value == '_ignored':
                         stats['ignored_name_sites'] += 1
                         ok = (rel == 'sourcer/expressions/utils.py' and fname == 'skip_ignored') or (
-                            rel == 'sourcer/translator.py' and fname == 'generate_source_code')
+                            rel == 'sourcer/translator.py' and fname.split('.')[0] == 'generate_source_code')
                         if not ok:
                             bad('IGN-who-may-call', f'{rel}:{fname} builds the name of the ignore rule')
 
@@ -1304,11 +1350,13 @@ def adaptor_rules(bad, stats):
             ok = len(ps) == 1 and ps[0].end[0] == 'return'
             if ok:
                 made = ('CALL', ('VAR', cname), a0)
-                stores = [e for e in ps[0].events('attrstore')]
-                ok = any(e[2][2] == '_parse_function' and e[3] == a1 for e in stores) and (
-                    ps[0].end[1] in (made, ('OBJ', 'result')) or ps[0].env.get('result') == ('OBJ', 'result'))
                 created = [e for e in ps[0].events('assign') if e[3] == made]
-                ok = ok and bool(created)
+                ok = bool(created)
+                if ok:
+                    obj = ('OBJ', created[0][2])
+                    stores = [e for e in ps[0].events('attrstore')]
+                    ok = any(e[2] in (('ATTR', obj, '_parse_function'), ('ATTR', made, '_parse_function'))
+                             and e[3] == a1 for e in stores) and ps[0].end[1] in (made, obj)
             if not ok:
                 bad('ADAPTOR', f'{what}: {wname} does not return {cname}(value) carrying the parse function')
         pf = cs['_ParseFunction']
